@@ -101,3 +101,7 @@ pub assume_specification[ f64::trunc ](x: f64) -> (r: f64) ensures r == f64_trun
 pub assume_specification[ f64::floor ](x: f64) -> (r: f64) ensures r == f64_floor(x);
 pub assume_specification[ f64::ceil ](x: f64) -> (r: f64) ensures r == f64_ceil(x);
 pub assume_specification[ f64::abs ](x: f64) -> (r: f64) ensures r == f64_abs(x);
+
+/// A2: `String::with_capacity` returns an empty string (the capacity is not observable)
+pub assume_specification[ String::with_capacity ](n: usize) -> (r: String)
+    ensures r@ == Seq::<char>::empty();
